@@ -106,28 +106,8 @@ func ruleReplCursor(c *Ctx, r *Reporter) {
 	}
 	// non-empty guard
 	nonEmpty := func(cond ssa.Value) (bool, bool) {
-		bo, ok := cond.(*ssa.BinOp)
-		if !ok {
-			return false, false
-		}
-		call, ok := bo.X.(*ssa.Call)
-		if !ok {
-			return false, false
-		}
-		if b, isB := call.Call.Value.(*ssa.Builtin); !isB || b.Name() != "len" || call.Call.Args[0] != entries {
-			return false, false
-		}
-		k, ok := constInt(bo.Y)
-		if !ok || k != 0 {
-			return false, false
-		}
-		switch bo.Op {
-		case token.EQL:
-			return false, true
-		case token.NEQ, token.GTR:
-			return true, false
-		}
-		return false, false
+		e, ne := emptinessFact(func(v ssa.Value) bool { return v == entries })(cond)
+		return ne, e
 	}
 	// (b) contiguity inside the batch: within an iteration every path to apply passes (index == 0) or (cur == prev+1)
 	var loop *GenericLoop
@@ -1034,4 +1014,32 @@ func minConvBits(v ssa.Value, d int) int {
 		v = cv.X
 	}
 	return bits
+}
+
+// emptinessFact: for conditions comparing len(<slice>) with 0 or 1 in any operand order, reports (slice is EMPTY on the
+// true edge, slice is EMPTY on the false edge); the other edge then means non-empty.
+func emptinessFact(isSlice func(ssa.Value) bool) Fact {
+	return func(cond ssa.Value) (bool, bool) {
+		bo, ok := cond.(*ssa.BinOp)
+		if !ok {
+			return false, false
+		}
+		x, y, op := bo.X, bo.Y, bo.Op
+		if _, isK := constInt(x); isK {
+			x, y = y, x
+			op = flipOp(op)
+		}
+		la := lenArgOf(x)
+		k, isK := constInt(y)
+		if la == nil || !isK || !isSlice(la) {
+			return false, false
+		}
+		switch {
+		case op == token.EQL && k == 0, op == token.LSS && k == 1, op == token.LEQ && k == 0:
+			return true, false
+		case op == token.NEQ && k == 0, op == token.GTR && k == 0, op == token.GEQ && k == 1:
+			return false, true
+		}
+		return false, false
+	}
 }
